@@ -63,11 +63,21 @@ def _edge(src_task, src_out, sink, kw=None, ps=None):
                                         "sink_task": sink, "sink_input_kw": kw, "sink_input_ps": ps})
 
 
+def _build_paths(repo, nodes, edges):
+    fi = repo.func(f"{B}.JobBuilder.build")
+    me = Obj(B + ".JobBuilder", {"nodes": dict(nodes), "edges": list(edges)})
+    ip = Interp(repo, inline=lambda f: f.qual.startswith(f"{B}."))
+    return fi, ip.explore(fi, args={"self": me})
+
+
 def r2_r3_edge_errors(ctx):
-    """C19.R2/R3: truth table of the edge validator; an unbound local read on any row is a violation."""
+    """C19.R2/R3: truth table of the edge validation as performed by JobBuilder.build (whatever helpers it is made of): a dangling
+    endpoint yields a problem list, a well-formed edge yields the job; an unbound local read on any row is a violation."""
     repo = ctx.repo
-    fi = repo.func(f"{B}.JobBuilder.build.get_edge_errors")
+    fi = repo.func(f"{B}.JobBuilder.build")
     ctx.analysed(fi.qual)
+    if f"{B}.JobBuilder.build.get_edge_errors" in repo.funcs:
+        ctx.analysed(f"{B}.JobBuilder.build.get_edge_errors")
     nodes = {"src": _tb(outs={"0": "int"}), "snk": _tb(ins={"x": "int"})}
     table = []
     for st_ok in (True, False):
@@ -76,37 +86,43 @@ def r2_r3_edge_errors(ctx):
                 for kind in ("kw-existing", "kw-missing", "positional"):
                     e = _edge("src" if st_ok else "nosuch", "0" if so_ok else "9", "snk" if sk_ok else "nosink",
                               kw={"kw-existing": "x", "kw-missing": "zz", "positional": None}[kind], ps=0 if kind == "positional" else None)
-                    paths = Interp(repo).explore(fi, env={"self.nodes": dict(nodes)}, args={"edge": e})
+                    _, paths = _build_paths(repo, nodes, [e])
                     ctx.evals(len(paths))
                     atoms = {"source_task": st_ok, "source_output": so_ok, "sink_task": sk_ok, "edge": kind}
                     bad = (not st_ok) or (st_ok and not so_ok) or (not sk_ok) or (sk_ok and kind == "kw-missing")
                     for p in paths:
-                        ys = [x for x in p.effects if x.kind == "yield"]
+                        rv = p.exit[1] if p.exit[0] == "return" else None
+                        is_err = isinstance(rv, App) and rv.fname.endswith("Either.error")
+                        is_ok = isinstance(rv, App) and rv.fname.endswith("Either.ok")
+                        probs = rv.args[0] if is_err and rv.args and isinstance(rv.args[0], list) else []
                         ub = [x for x in p.effects if x.kind == "unbound"]
-                        table.append({**atoms, "problems": len(ys), "exit": p.exit[0]})
+                        table.append({**atoms, "problems": len(probs), "exit": p.exit[0], "result": "problems" if is_err else "job" if is_ok else "?"})
                         if ub:
-                            ctx.violation("C19.R2", fi.qual, loc(fi, ub[0].node), f"unbound local {ub[0].data['name']}",
+                            ctx.violation("C19.R2", ub[0].func, loc(fi, ub[0].node), f"unbound local {ub[0].data['name']}",
                                           f"edge {atoms}: the validator reads local '{ub[0].data['name']}' before it is bound (UnboundLocalError instead of a problem list)", row=atoms)
                         elif p.exit[0] != "return":
-                            ctx.violation("C19.R3", fi.qual, loc(fi), "validator completes", f"edge {atoms}: the validator raises {vkey(p.exit[1])[:100]}", row=atoms)
-                        elif bad and not ys:
+                            ctx.violation("C19.R3", fi.qual, loc(fi), "validator completes", f"edge {atoms}: build raises {vkey(p.exit[1])[:100]}", row=atoms)
+                        elif not (is_err or is_ok):
+                            ctx.undecided("C19.R3", loc(fi), f"edge {atoms}: build returns {vkey(rv)[:100]}, neither Either.ok nor Either.error")
+                        elif bad and not probs:
                             ctx.violation("C19.R3", fi.qual, loc(fi), "dangling endpoint reported",
-                                          f"edge {atoms} has a dangling endpoint but the validator reports no problem: the builder would accept the job", row=atoms)
-                        elif not bad and ys:
-                            ctx.violation("C19.R3", fi.qual, loc(fi), "well-formed edge accepted", f"edge {atoms} is well formed but {len(ys)} problem(s) are reported", row=atoms)
+                                          f"edge {atoms} has a dangling endpoint but build reports no problem: the builder accepts the job", row=atoms)
+                        elif not bad and is_err:
+                            ctx.violation("C19.R3", fi.qual, loc(fi), "well-formed edge accepted", f"edge {atoms} is well formed but {len(probs)} problem(s) are reported: "
+                                          f"{vkey(probs)[:120]}", row=atoms)
                         else:
-                            ctx.ok("C19.R3", loc(fi), f"edge validator | {atoms} -> {len(ys)} problem(s)")
+                            ctx.ok("C19.R3", loc(fi), f"edge validation | {atoms} -> {len(probs)} problem(s)")
     ctx.table("C19.R3", table)
     # direction of the declared-type compatibility test: the *output* type must be a subclass of the *input* type
     nodes2 = {"src": _tb(outs={"0": "bool"}), "snk": _tb(ins={"x": "int"})}
-    paths = Interp(repo).explore(fi, env={"self.nodes": nodes2}, args={"edge": _edge("src", "0", "snk", kw="x")})
+    _, paths = _build_paths(repo, nodes2, [_edge("src", "0", "snk", kw="x")])
     calls = [e for p in paths for e in p.effects if e.kind == "call" and e.data["name"] == "builtins.issubclass"]
     if not calls:
         ctx.undecided("C19.R3", loc(fi), "type compatibility of an edge (bool -> int) is not decided through issubclass")
     else:
         a = [vkey(x) for x in calls[0].data["args"]]
         if not ("'bool'" in a[0] and "'int'" in a[1]):
-            ctx.violation("C19.R3", fi.qual, loc(fi, calls[0].node), "compatibility direction",
+            ctx.violation("C19.R3", calls[0].func, loc(fi, calls[0].node), "compatibility direction",
                           f"edge from an output declared `bool` into a parameter declared `int`: compatibility is tested as issubclass({a[0]}, {a[1]}); it must be "
                           f"issubclass(output type, parameter type) — reversed, bool -> int is rejected and int -> bool accepted")
         else:
